@@ -4,6 +4,7 @@ import (
 	"encoding/json"
 	"errors"
 	"fmt"
+	"io"
 	"net/http"
 	"sort"
 	"strings"
@@ -94,7 +95,24 @@ func (h *hookClient) Call(headers map[string]string, method string, url string, 
 	h.mu.Lock()
 	h.posts = append(h.posts, method+" "+url+" "+eventStr(body))
 	h.mu.Unlock()
+	// targets whose URL ends in /ok answer 200; every other target refuses the connection
+	if strings.HasSuffix(url, "/ok") {
+		return &http.Response{StatusCode: 200, Body: io.NopCloser(strings.NewReader("ok"))}, nil
+	}
 	return nil, errors.New("connection refused")
+}
+
+// postsTo returns the events posted to one URL
+func (h *hookClient) postsTo(url string) []string {
+	h.mu.Lock()
+	defer h.mu.Unlock()
+	var r []string
+	for _, p := range h.posts {
+		if strings.HasPrefix(p, "POST "+url+" ") {
+			r = append(r, strings.TrimPrefix(p, "POST "+url+" "))
+		}
+	}
+	return r
 }
 
 func waitFor(cond func() bool, timeout time.Duration) bool {
@@ -145,9 +163,29 @@ func runC11(c *Ctx) error {
 		nt.AddChannel(notification.NewWebsocketChannel(ci.Log, pubFail, ci.Cfg.Websocket))
 		nt.AddChannel(notification.NewWebsocketChannel(ci.Log, pubOK, ci.Cfg.Websocket))
 		nt.AddChannel(ci.Svc.Webhooks)
-		if _, err := ci.Svc.Webhooks.CreateWebhook("BEARER", "", "t", "http://hook.invalid/a"); err != nil {
-			return fmt.Errorf("create webhook: %v", err)
+		// four webhooks in table order: a failing one that stays active (threshold far away) and, in a second
+		// service with max_tries = 2, …/dead fails and is deactivated after two events while the two listed AFTER it
+		// (…/b/ok, …/c/ok) are healthy and must keep receiving every event
+		for _, u := range []string{"http://hook.invalid/a", "http://hook.invalid/b/ok"} {
+			if _, err := ci.Svc.Webhooks.CreateWebhook("BEARER", "", "t", u); err != nil {
+				return fmt.Errorf("create webhook: %v", err)
+			}
 		}
+		hook2 := &hookClient{}
+		ci2cfg := *ci.Cfg.Webhook
+		ci2cfg.MaxTries = 2
+		// a second SQL-backed webhook table is not available in one database: use a second stack (own file)
+		// whose notifier is fed by the same submissions through a forwarding channel
+		st2, err := lib.NewStack(lib.StackOpts{File: lib.TempDB(fmt.Sprintf("c11-hooks-%d.db", k%3)), NoEngine: true, WebhookCli: hook2, MaxTries: 2})
+		if err != nil {
+			return err
+		}
+		for _, u := range []string{"http://hook.invalid/dead", "http://hook.invalid/b/ok", "http://hook.invalid/c/ok"} {
+			if _, err := st2.Svc.Webhooks.CreateWebhook("BEARER", "", "t", u); err != nil {
+				return fmt.Errorf("create webhook: %v", err)
+			}
+		}
+		nt.AddChannel(st2.Svc.Webhooks)
 		n := 4 + rng.Intn(maxLen-3)
 		nodes, order := randomHistory(rng, n, uint32(k)+uint32(c.Seed)*48611, k%4 == 0, true)
 		forbidHash := nodes[rng.Intn(n)].Hdr.HashStr()
@@ -242,15 +280,14 @@ func runC11(c *Ctx) error {
 			defer pubFail.mu.Unlock()
 			return append([]string(nil), pubFail.events...)
 		})
-		check("webhook(failing target)", func() []string {
-			hook.mu.Lock()
-			defer hook.mu.Unlock()
-			var r []string
-			for _, p := range hook.posts {
-				r = append(r, strings.TrimPrefix(p, "POST http://hook.invalid/a "))
-			}
-			return r
-		})
+		check("webhook(failing target, still active)", func() []string { return hook.postsTo("http://hook.invalid/a") })
+		check("webhook(healthy target listed after a failing one)", func() []string { return hook.postsTo("http://hook.invalid/b/ok") })
+		check("webhook(healthy target listed after a DEACTIVATED one)", func() []string { return hook2.postsTo("http://hook.invalid/b/ok") })
+		check("webhook(second healthy target after a deactivated one)", func() []string { return hook2.postsTo("http://hook.invalid/c/ok") })
+		if n := len(hook2.postsTo("http://hook.invalid/dead")); len(expected) >= 2 && n != 2 {
+			fail(fmt.Sprintf("the failing webhook with max_tries=2 was called %d times", n), "2", fmt.Sprint(n), "c11-events:webhook-deactivation")
+		}
+		st2.Close()
 		for ch, n := range pubOK.chans {
 			if ch != "headers" {
 				fail("websocket event published to channel "+ch, "headers", fmt.Sprint(n), "c11-events:websocket")
